@@ -353,3 +353,63 @@ def c18(ctx):
                      "page-cache loss is outside the property",
                      "hook points cover every filesystem call of fsstore.go (reviewed)"],
         exhaustive=quick is False)
+
+
+# --------------------------------------------------------------------------- storage
+def st_cfg(nk, maxops, putvias, getvias):
+    return """SPECIFICATION Spec
+CONSTANTS
+  NK = %d
+  MaxOps = %d
+  PutVias = %s
+  GetVias = %s
+INVARIANTS TypeOK ReadsReflectPuts Emit
+PROPERTIES Monotone
+CHECK_DEADLOCK FALSE
+""" % (nk, maxops, tla_strs(putvias), tla_strs(getvias))
+
+
+ST_TRACE_CFG = """SPECIFICATION TraceSpec
+CONSTANTS
+  NK = 12
+  MaxOps = 0
+  PutVias = {}
+  GetVias = {}
+POSTCONDITION TraceAccepted
+CHECK_DEADLOCK FALSE
+"""
+
+
+@prop("C17")
+def c17(ctx):
+    quick = ctx.tier == "quick"
+    stages = [("k2", st_cfg(2, 3 if quick else 4, ("put", "stream", "vec"), ("get", "stream", "peek")), 1 if quick else 4),
+              ("k3", st_cfg(3, 3 if quick else 4, ("put", "stream"), ("get", "peek")), 2 if quick else 8)]
+    for label, cfg, fsevery in stages:
+        f = os.path.join(ctx.scratch, "st-%s.ndjson" % label)
+        ctx.tlc("StorageGen", cfg, capture=f, workers=8, timeout=2400)
+        args = ["storage", "-in", f, "-scratch", ctx.scratch, "-fsevery", str(fsevery)]
+        rep = ctx.vh_run_sharded(args, nshards=8 if quick else 16, timeout=3000)
+        ctx.absorb(rep, args, label="storage/" + label)
+        os.remove(f)
+    # B2: long random histories recorded from the real stores, validated by TLC against the same contract
+    tr = os.path.join(ctx.scratch, "storage-trace.ndjson")
+    rec = ["storage-record", "-out", tr, "-seed", str(ctx.seed), "-traces", "30" if quick else "300",
+           "-ops", "300", "-scratch", ctx.scratch]
+    rep = ctx.vh_run(rec)
+    ctx.tlc_trace("StorageTrace", ST_TRACE_CFG, tr, "storage/recorded", "storage", timeout=1200)
+    ctx.notes.append("trace validation: %d recorded events (%d histories x 300 calls, 12 keys each)"
+                     % (rep["extra"].get("events", 0), rep["cases"]))
+    return ctx.finish(
+        "model_checking",
+        rule="histories = every sequence of put/put-stream/put-vec/get/get-stream/peek/has calls of Storage.tla inside the "
+             "bounds (TLC, exhaustive), each replayed on memstore, memstore behind the basic interfaces only (fallback "
+             "paths), cidlink.Memory and fsstore (default and custom sharding/escaping) under 6 adversarial key profiles "
+             "(keys colliding after path cleaning, dot-dot, NUL, empty, 300 bytes, absolute paths), with the caller's "
+             "buffer overwritten after every put and every filesystem path checked to lie inside the base directory; "
+             "plus recorded random histories validated by TLC; non-trivial = every history (>= 3 calls); distinct = "
+             "distinct call sequences",
+        assumptions=["content-addressed use: one content per key", "a put refused with an error is outside the property "
+                     "(only successful puts are constrained)", "committing a stream with the empty key is the documented "
+                     "abandon request, not a put"],
+        exhaustive=True)
